@@ -157,6 +157,18 @@ for pid, what in PY_TIE.items():
                   "Generated/Py*.lean; bridge theorems (Bridge/Py*.lean) prove the translated definitions equal to the model functions for all real arguments "
                   "(an untranslatable source makes the obligation trivial and is recorded as t_tie: unavailable).")
     c["technique"] += " + source-to-Lean translator (py2lean) with equality theorems"
+CLAIMED["C04"]["note"] = ("Trusted: np.percentile ('linear' method, modelled by its contract: monotone in p and bounded by min/max are proved for the model, "
+                          "Props/C04.lean percentile_mono/percentile_bounds, and tested on the implementation); rotation invariance and 180-degree periodicity are composed through the whole chain (Props/C04Rot.lean).")
+CLAIMED["C06"]["note"] = ("Trusted: float rounding at zero guards / convergence limits / bounds (such runs are detected from the implementation's own trace, skipped and counted). Order independence "
+                          "(Props/C06Order.lean), scale invariance (fdwra_scale) and the published bounds/stopping rule (Props/C06Spec.lean) are theorems; they are also tested on the implementation.")
+CLAIMED["C07"]["note"] = ("Known finding C07-b (PEER horizontals equally far from north) is reported as KNOWN-FINDING. Trusted: obspy encode/decode pair, Python re "
+                          "(the regex source strings are tied by the bridge; a lexer model is listed in MANIFEST only once it is integrated).")
+CLAIMED["C08"]["note"] = ("Trusted: scipy find_peaks default behaviour (modelled by contract: localMaxima_iff is sound and complete incl. plateaus; differentially tested); find_peaks keyword options that "
+                          "exclude peaks are not modelled (neutral options are generated, excluding ones are round-trip tested in C12/C20).")
+CLAIMED["C11"]["note"] = ("Known finding C11-a (NaN peaks counted in the weights after a time-domain mask) is reported as KNOWN-FINDING. Mean-of-means for any counts, equal-count reductions, "
+                          "single-azimuth reduction, diagonal = std^2, invariance of mean/std/covariance under permutations of azimuths and windows are theorems (Props/C11*.lean).")
+CLAIMED["C17"]["note"] = ("Parseval, amplitude-squared scaling and Welch averaging are theorems (Props/C17.lean); flat response and spectral derivative are proved from Fourier inversion for even and odd "
+                          "transform lengths (Props/C17Inv, C17Deriv, C17Odd). Trusted: numpy rfft/irfft = DFT, scipy.signal.freqs for pole-zero responses (only the flat response is modelled).")
 CLAIMED["C01"]["note"] = ("Trusted: numpy rfft = DFT (cross-checked on every case), np.percentile (modelled by its 'linear' contract). Scale invariance, the a/b law and the closed form for proportional "
                           "components are composed through the whole chain for every method (frequency-domain combinations, single azimuth, RotDpp for positive smoothed spectra, diffuse field).")
 
